@@ -278,12 +278,14 @@ META = {
                    "current_beat >= length - 0.001 and length != 0'; current_beat + space_left == length; one place_notes call on a "
                    "bar in ANY state (entry list of unknown length): accepted exactly when total + 1/value <= length + 1e-9 or "
                    "the meter is unbounded, then exactly one entry [old total, value, content] is appended, earlier entries and "
-                   "the bar length are untouched and the total advances by 1/value; otherwise False and nothing changes. The "
+                   "the bar length are untouched and the total advances by 1/value; otherwise False and nothing changes; "
+                   "remove_last_entry on a bar in ANY state drops exactly the last entry, takes its length off the total and "
+                   "raises IndexError on an empty bar. The "
                    "history clauses (start beats are prefix sums over IEEE floats, the coded acceptance test coincides with the "
                    "exact-rational one for the value vocabulary) depend on IEEE rounding: decided by the driver against an exact "
                    "Fraction model.",
         level_note=TB + " float-as-real in the deductive part; the float-vs-rational question is bounded only.",
-        explanation="Deductive: Bar.set_meter, is_full, space_left, place_notes (3 argument shapes). Bounded: bounded/drivers/C13.py.",
+        explanation="Deductive: Bar.set_meter, is_full, space_left, place_notes (3 argument shapes), remove_last_entry. Bounded: bounded/drivers/C13.py.",
     ),
     "C14": dict(
         claimed=True, level="other",
